@@ -20,255 +20,324 @@ import (
 
 type sevSource struct {
 	name string // Lean identifier stem
-	file string
+	file string // where the function is written today (named in the doc comment of the generated table)
 	fn   string
+	dir  string // the package whose string literals are candidate inputs
 }
 
 var sevSources = []sevSource{
-	{"Debian", "debian/severity.go", "normalizeSeverity"},
-	{"Ubuntu", "ubuntu/updater.go", "normalizeSeverity"},
-	{"Oracle", "oracle/normalizeseverity.go", "NormalizeSeverity"},
-	{"Suse", "suse/normalizeseverity.go", "NormalizeSeverity"},
-	{"Photon", "photon/normalizeseverity.go", "NormalizeSeverity"},
-	{"Aws", "aws/normalizeseverity.go", "NormalizeSeverity"},
-	{"Rhel", "rhel/internal/common/normalizeseverity.go", "NormalizeSeverity"},
+	{"Debian", "debian/severity.go", "normalizeSeverity", "debian"},
+	{"Ubuntu", "ubuntu/updater.go", "normalizeSeverity", "ubuntu"},
+	{"Oracle", "oracle/normalizeseverity.go", "NormalizeSeverity", "oracle"},
+	{"Suse", "suse/normalizeseverity.go", "NormalizeSeverity", "suse"},
+	{"Photon", "photon/normalizeseverity.go", "NormalizeSeverity", "photon"},
+	{"Aws", "aws/normalizeseverity.go", "NormalizeSeverity", "aws"},
+	{"Rhel", "rhel/internal/common/normalizeseverity.go", "NormalizeSeverity", "rhel/internal/common"},
 }
 
-// severityConsts reads the iota block of severity.go: name -> value.
+// severityConsts reads the Severity constants of package claircore (any file):
+// names in value order, which must be 0,1,2,….
 func severityConsts(repo string) ([]string, map[string]int, error) {
-	_, f, err := ParseFile(repo, "severity.go")
+	p, err := rxLoadPkg(repo, ".")
 	if err != nil {
 		return nil, nil, err
 	}
-	for _, d := range f.Decls {
-		gd, ok := d.(*ast.GenDecl)
-		if !ok || gd.Tok != token.CONST {
-			continue
-		}
-		var names []string
-		isSev := false
-		for i, s := range gd.Specs {
-			vs := s.(*ast.ValueSpec)
-			if i == 0 {
-				id, ok := vs.Type.(*ast.Ident)
-				if !ok || id.Name != "Severity" || len(vs.Values) != 1 {
-					break
-				}
-				if v, ok := vs.Values[0].(*ast.Ident); !ok || v.Name != "iota" {
-					break
-				}
-				isSev = true
-			} else if vs.Type != nil || len(vs.Values) != 0 {
-				return nil, nil, fmt.Errorf("severity.go: const block is not a plain iota sequence")
-			}
-			if len(vs.Names) != 1 {
-				return nil, nil, fmt.Errorf("severity.go: const spec with several names")
-			}
-			names = append(names, vs.Names[0].Name)
-		}
-		if isSev {
-			m := map[string]int{}
-			for i, n := range names {
-				m[n] = i
-			}
-			return names, m, nil
-		}
+	names, err := p.IotaSeq("Severity")
+	if err != nil {
+		return nil, nil, err
 	}
-	return nil, nil, fmt.Errorf("severity.go: Severity iota block not found")
-}
-
-// sevSelector resolves `claircore.X` (or bare X inside package claircore).
-func sevSelector(e ast.Expr, consts map[string]int) (int, error) {
-	switch x := e.(type) {
-	case *ast.SelectorExpr:
-		if id, ok := x.X.(*ast.Ident); ok && id.Name == "claircore" {
-			if v, ok := consts[x.Sel.Name]; ok {
-				return v, nil
-			}
-		}
-	case *ast.Ident:
-		if v, ok := consts[x.Name]; ok {
-			return v, nil
-		}
+	m := map[string]int{}
+	for i, n := range names {
+		m[n] = i
 	}
-	return 0, fmt.Errorf("not a claircore severity constant")
-}
-
-func strExpr(f *ast.File, e ast.Expr) (string, error) {
-	switch x := e.(type) {
-	case *ast.BasicLit:
-		if x.Kind == token.STRING {
-			return strconv.Unquote(x.Value)
-		}
-	case *ast.Ident:
-		return StringConst(f, x.Name)
-	}
-	return "", fmt.Errorf("case label is not a string literal or constant")
+	return names, m, nil
 }
 
 type sevTable struct {
-	mode  string // exact | lower | fold
-	rows  [][2]any
+	mode  string // exact | lower | fold | (anything else: a behaviour the model does not know)
 	keys  []string
 	vals  []int
 	deflt int
 }
 
-// switchTable reads `switch <tag> { case "a": return claircore.X ... default: return claircore.Y }`.
-func switchTable(f *ast.File, fd *ast.FuncDecl, consts map[string]int) (*sevTable, error) {
-	if fd == nil || fd.Body == nil || fd.Type.Params == nil || len(fd.Type.Params.List) != 1 || len(fd.Type.Params.List[0].Names) != 1 {
-		return nil, fmt.Errorf("function not found or not unary")
-	}
-	param := fd.Type.Params.List[0].Names[0].Name
-	var sw *ast.SwitchStmt
-	swIdx := -1
-	for i, st := range fd.Body.List {
-		if s, ok := st.(*ast.SwitchStmt); ok {
-			if sw != nil {
-				return nil, fmt.Errorf("more than one switch")
-			}
-			sw, swIdx = s, i
+// ---- evaluated tables (probe "severity") ----
+
+// rxSevFresh are strings no source can know: they pin the default branch.
+var rxSevFresh = []string{"rxq", "RXQ-7", "~rx probe~", "zzzz unknown severity"}
+
+func rxASCIIUpper(s string) string {
+	b := []byte(s)
+	for i, c := range b {
+		if c >= 'a' && c <= 'z' {
+			b[i] = c - 32
 		}
 	}
-	if sw == nil || sw.Init != nil {
-		return nil, fmt.Errorf("no plain switch statement")
-	}
-	t := &sevTable{deflt: -1}
-	switch tag := sw.Tag.(type) {
-	case *ast.Ident:
-		if tag.Name != param {
-			return nil, fmt.Errorf("switch tag is not the parameter")
-		}
-		t.mode = "exact"
-	case *ast.CallExpr:
-		sel, ok := tag.Fun.(*ast.SelectorExpr)
-		if !ok || len(tag.Args) != 1 {
-			return nil, fmt.Errorf("unrecognised switch tag")
-		}
-		pk, _ := sel.X.(*ast.Ident)
-		arg, _ := tag.Args[0].(*ast.Ident)
-		if pk == nil || pk.Name != "strings" || sel.Sel.Name != "ToLower" || arg == nil || arg.Name != param {
-			return nil, fmt.Errorf("unrecognised switch tag call")
-		}
-		t.mode = "lower"
-	default:
-		return nil, fmt.Errorf("unrecognised switch tag")
-	}
-	retOf := func(body []ast.Stmt) (int, bool, error) {
-		if len(body) == 0 {
-			return 0, false, nil
-		}
-		if len(body) != 1 {
-			return 0, false, fmt.Errorf("case body is not a single return")
-		}
-		r, ok := body[0].(*ast.ReturnStmt)
-		if !ok || len(r.Results) != 1 {
-			return 0, false, fmt.Errorf("case body is not a single return")
-		}
-		v, err := sevSelector(r.Results[0], consts)
-		return v, true, err
-	}
-	for _, c := range sw.Body.List {
-		cc := c.(*ast.CaseClause)
-		v, has, err := retOf(cc.Body)
-		if err != nil {
-			return nil, err
-		}
-		if cc.List == nil { // default
-			if has {
-				t.deflt = v
-			}
-			continue
-		}
-		if !has {
-			return nil, fmt.Errorf("case without a return")
-		}
-		for _, e := range cc.List {
-			k, err := strExpr(f, e)
-			if err != nil {
-				return nil, err
-			}
-			t.keys = append(t.keys, k)
-			t.vals = append(t.vals, v)
-		}
-	}
-	if t.deflt < 0 {
-		// the return after the switch
-		rest := fd.Body.List[swIdx+1:]
-		if len(rest) != 1 {
-			return nil, fmt.Errorf("no default return")
-		}
-		v, has, err := retOf(rest)
-		if err != nil || !has {
-			return nil, fmt.Errorf("no default return")
-		}
-		t.deflt = v
-	} else if swIdx != len(fd.Body.List)-1 {
-		return nil, fmt.Errorf("statements after the switch")
-	}
-	return t, nil
+	return string(b)
 }
 
-// foldTable reads severityFromDBString: `sev = D; switch { case strings.EqualFold(s, "x")[, ...]: sev = claircore.X } return sev`.
-func foldTable(fd *ast.FuncDecl, consts map[string]int) (*sevTable, error) {
-	if fd == nil || fd.Body == nil || len(fd.Body.List) != 3 {
-		return nil, fmt.Errorf("unexpected shape (want: assignment, switch, return)")
-	}
-	param := fd.Type.Params.List[0].Names[0].Name
-	asg := func(st ast.Stmt) (int, error) {
-		a, ok := st.(*ast.AssignStmt)
-		if !ok || a.Tok != token.ASSIGN || len(a.Lhs) != 1 || len(a.Rhs) != 1 {
-			return 0, fmt.Errorf("not an assignment")
+func rxASCIILower(s string) string {
+	b := []byte(s)
+	for i, c := range b {
+		if c >= 'A' && c <= 'Z' {
+			b[i] = c + 32
 		}
-		if id, ok := a.Lhs[0].(*ast.Ident); !ok || id.Name != "sev" {
-			return 0, fmt.Errorf("assignment is not to sev")
+	}
+	return string(b)
+}
+
+func rxASCIISwap(s string) string {
+	b := []byte(s)
+	for i, c := range b {
+		switch {
+		case c >= 'A' && c <= 'Z':
+			b[i] = c + 32
+		case c >= 'a' && c <= 'z':
+			b[i] = c - 32
 		}
-		return sevSelector(a.Rhs[0], consts)
 	}
-	t := &sevTable{mode: "fold"}
-	var err error
-	if t.deflt, err = asg(fd.Body.List[0]); err != nil {
-		return nil, err
+	return string(b)
+}
+
+func rxASCIITitle(s string) string {
+	b := []byte(rxASCIILower(s))
+	if len(b) > 0 && b[0] >= 'a' && b[0] <= 'z' {
+		b[0] -= 32
 	}
-	sw, ok := fd.Body.List[1].(*ast.SwitchStmt)
-	if !ok || sw.Tag != nil || sw.Init != nil {
-		return nil, fmt.Errorf("second statement is not a tagless switch")
-	}
-	if r, ok := fd.Body.List[2].(*ast.ReturnStmt); !ok || len(r.Results) != 1 {
-		return nil, fmt.Errorf("third statement is not `return sev`")
-	} else if id, ok := r.Results[0].(*ast.Ident); !ok || id.Name != "sev" {
-		return nil, fmt.Errorf("third statement is not `return sev`")
-	}
-	for _, c := range sw.Body.List {
-		cc := c.(*ast.CaseClause)
-		if cc.List == nil {
-			return nil, fmt.Errorf("unexpected default clause")
+	return string(b)
+}
+
+func rxHasLetter(s string) bool { return rxASCIIUpper(s) != rxASCIILower(s) }
+
+// rxCaseVariants: spellings that differ from s in ASCII letter case only.
+func rxCaseVariants(s string) []string {
+	set := rxSet{}
+	for _, v := range []string{rxASCIIUpper(s), rxASCIILower(s), rxASCIISwap(s), rxASCIITitle(s)} {
+		if v != s {
+			set.add(v)
 		}
-		if len(cc.Body) != 1 {
-			return nil, fmt.Errorf("case body is not one assignment")
+	}
+	return set.sorted()
+}
+
+// rxReplaceFirstFold replaces the first ASCII letter c (either case) by with.
+func rxReplaceFirstFold(s string, c byte, with string) (string, bool) {
+	for i := 0; i < len(s); i++ {
+		if s[i] == c || s[i] == c-32 {
+			return s[:i] + with + s[i+1:], true
 		}
-		v, err := asg(cc.Body[0])
+	}
+	return "", false
+}
+
+// rxLooseVariants: near misses of s (padding, one character more or less).
+// An accepted one becomes a row of the table like any other accepted string.
+func rxLooseVariants(s string) []string {
+	out := []string{" " + s, s + " ", "\t" + s, s + "\n", s + "x", "x" + s}
+	if len(s) > 1 {
+		out = append(out, s[:len(s)-1], s[1:])
+	}
+	return out
+}
+
+// rxSevTables evaluates every normaliser on its candidate domain:
+// string literals of its package ∪ the keys of the snapshot ∪ the keys of the
+// documentation tables ∪ near misses and case variants of all those ∪ fresh probes.
+func rxSevTables(repo string, docKeys map[string][]string) (map[string]*sevTable, error) {
+	type plan struct {
+		base []string // candidate keys
+		all  []string // everything asked
+	}
+	plans := map[string]*plan{}
+	in := map[string][]string{}
+	words := rxSet{}
+	for _, ks := range rxSnapSeverity {
+		words.add(ks.keys...)
+	}
+	srcs := append([]sevSource{}, sevSources...)
+	srcs = append(srcs, sevSource{"OsvDb", "updater/osv/osv.go", "severityFromDBString", "updater/osv"})
+	for _, s := range srcs {
+		p, err := rxLoadPkg(repo, s.dir)
 		if err != nil {
 			return nil, err
 		}
-		for _, e := range cc.List {
-			call, ok := e.(*ast.CallExpr)
-			if !ok || len(call.Args) != 2 {
-				return nil, fmt.Errorf("case is not strings.EqualFold(s, lit)")
+		base := rxSet{}
+		base.add(p.StringLits()...)
+		base.add(rxSnapSeverity[s.name].keys...)
+		base.add(docKeys[s.name]...)
+		base.add(words.sorted()...)
+		base.add("")
+		delete(base, "*")
+		for _, k := range base.sorted() {
+			if len(k) > 64 || strings.ContainsAny(k, "\n%{") {
+				delete(base, k) // format strings, queries, documentation: not severity words
 			}
-			sel, ok := call.Fun.(*ast.SelectorExpr)
-			if !ok || sel.Sel.Name != "EqualFold" {
-				return nil, fmt.Errorf("case is not strings.EqualFold(s, lit)")
-			}
-			a0, _ := call.Args[0].(*ast.Ident)
-			a1, _ := call.Args[1].(*ast.BasicLit)
-			if a0 == nil || a0.Name != param || a1 == nil || a1.Kind != token.STRING {
-				return nil, fmt.Errorf("case is not strings.EqualFold(s, lit)")
-			}
-			k, _ := strconv.Unquote(a1.Value)
-			t.keys = append(t.keys, k)
-			t.vals = append(t.vals, v)
 		}
+		for _, k := range base.sorted() {
+			for _, v := range rxLooseVariants(k) {
+				if len(k) > 0 {
+					base.add(v)
+				}
+			}
+		}
+		all := rxSet{}
+		for _, k := range base.sorted() {
+			all.add(k)
+			all.add(rxCaseVariants(k)...)
+			if v, ok := rxReplaceFirstFold(k, 'i', "\u0130"); ok { // İ: ToLower gives i, EqualFold does not fold it to i
+				all.add(v)
+			}
+			if v, ok := rxReplaceFirstFold(k, 's', "\u017f"); ok { // ſ: folds to s, ToLower leaves it
+				all.add(v)
+			}
+		}
+		all.add(rxSevFresh...)
+		plans[s.name] = &plan{base: base.sorted(), all: all.sorted()}
+		in[s.name] = plans[s.name].all
+	}
+	var out map[string][]int
+	if err := rxProbe(repo, "severity", map[string]any{"normalize": in}, &struct {
+		Normalize *map[string][]int `json:"normalize"`
+	}{&out}); err != nil {
+		return nil, err
+	}
+	res := map[string]*sevTable{}
+	for _, s := range srcs {
+		pl := plans[s.name]
+		got := out[s.name]
+		if len(got) != len(pl.all) {
+			return nil, fmt.Errorf("severity probe: %s: %d answers for %d questions", s.name, len(got), len(pl.all))
+		}
+		f := map[string]int{}
+		for i, k := range pl.all {
+			f[k] = got[i]
+		}
+		t, err := rxSevClassify(s.name, pl.base, f)
+		if err != nil {
+			return nil, fmt.Errorf("%s %s: %w", s.file, s.fn, err)
+		}
+		res[s.name] = t
+	}
+	return res, nil
+}
+
+// rxSevClassify turns the evaluated function into (mode, rows, default).
+//
+// default  the value of the fresh probes (they must agree).
+// mode     exact: no case variant of an accepted key is accepted with the key's value (unless it is listed itself);
+//
+//	lower / fold: every ASCII case variant of every accepted key gives the key's value; the two differ on
+//	U+0130 (strings.ToLower maps it to i) and U+017F (strings.EqualFold folds it to s); when no accepted key
+//	has an i or an s they are the same function and the snapshot's name is kept.
+//
+// rows     the snapshot's keys in the snapshot's order with their evaluated values, then every other accepted
+//
+//	candidate (value ≠ default) that is not a case variant of a listed key under a case-insensitive mode, sorted.
+func rxSevClassify(name string, base []string, f map[string]int) (*sevTable, error) {
+	deflt := f[rxSevFresh[0]]
+	for _, p := range rxSevFresh {
+		if f[p] != deflt {
+			return nil, fmt.Errorf("no single default value: %q gives %d, %q gives %d", rxSevFresh[0], deflt, p, f[p])
+		}
+	}
+	snap := rxSnapSeverity[name]
+	var accepted []string
+	for _, k := range base {
+		if f[k] != deflt {
+			accepted = append(accepted, k)
+		}
+	}
+	// case behaviour of the accepted keys
+	allCI, allExact, anyLetter := true, true, false
+	for _, k := range accepted {
+		if !rxHasLetter(k) {
+			continue
+		}
+		anyLetter = true
+		for _, v := range rxCaseVariants(k) {
+			if f[v] == f[k] {
+				allExact = false
+			} else {
+				allCI = false
+			}
+		}
+	}
+	t := &sevTable{deflt: deflt}
+	switch {
+	case !anyLetter:
+		t.mode = snap.mode
+	case allExact:
+		t.mode = "exact"
+	case allCI:
+		hasI, iAcc, iRej := false, true, true
+		hasS, sAcc, sRej := false, true, true
+		for _, k := range accepted {
+			if v, ok := rxReplaceFirstFold(k, 'i', "\u0130"); ok {
+				hasI = true
+				if f[v] == f[k] {
+					iRej = false
+				} else {
+					iAcc = false
+				}
+			}
+			if v, ok := rxReplaceFirstFold(k, 's', "\u017f"); ok {
+				hasS = true
+				if f[v] == f[k] {
+					sRej = false
+				} else {
+					sAcc = false
+				}
+			}
+		}
+		lowerLike := (!hasI || iAcc) && (!hasS || sRej)
+		foldLike := (!hasI || iRej) && (!hasS || sAcc)
+		switch {
+		case lowerLike && foldLike:
+			t.mode = snap.mode
+			if t.mode != "lower" && t.mode != "fold" {
+				t.mode = "lower"
+			}
+		case lowerLike:
+			t.mode = "lower"
+		case foldLike:
+			t.mode = "fold"
+		default:
+			t.mode = "case-insensitive-other"
+		}
+	default:
+		t.mode = "mixed-case-behaviour"
+	}
+	ci := t.mode == "lower" || t.mode == "fold" || t.mode == "case-insensitive-other"
+	canon := func(k string) string {
+		if ci {
+			return rxASCIILower(k)
+		}
+		return k
+	}
+	listed := map[string]bool{}
+	for _, k := range snap.keys {
+		t.keys = append(t.keys, k)
+		t.vals = append(t.vals, f[k])
+		listed[canon(k)] = true
+	}
+	extra := rxSet{}
+	for _, k := range accepted {
+		if !listed[canon(k)] {
+			extra.add(canon(k))
+		}
+	}
+	for _, k := range extra.sorted() {
+		v, ok := f[k]
+		if !ok {
+			// canonical spelling was not asked itself: take the value of a spelling that was
+			for _, a := range accepted {
+				if canon(a) == k {
+					v = f[a]
+					break
+				}
+			}
+		}
+		t.keys = append(t.keys, k)
+		t.vals = append(t.vals, v)
 	}
 	return t, nil
 }
@@ -279,115 +348,261 @@ type band struct {
 	sev   int
 }
 
-// bandSwitch reads the last tagless switch on `score` of a fromCVSSn function.
-func bandSwitch(fd *ast.FuncDecl, consts map[string]int) ([]band, error) {
-	if fd == nil || fd.Body == nil {
-		return nil, fmt.Errorf("function not found")
-	}
-	var sw *ast.SwitchStmt
-	for _, st := range fd.Body.List {
-		if s, ok := st.(*ast.SwitchStmt); ok && s.Tag == nil {
-			sw = s
-		}
-	}
-	if sw == nil {
-		return nil, fmt.Errorf("no tagless switch")
-	}
-	var out []band
-	sawDefault := false
-	for _, c := range sw.Body.List {
-		cc := c.(*ast.CaseClause)
-		if cc.List == nil {
-			// default must return an error
-			if len(cc.Body) != 1 {
-				return nil, fmt.Errorf("default is not a single return")
-			}
-			if _, ok := cc.Body[0].(*ast.ReturnStmt); !ok {
-				return nil, fmt.Errorf("default is not a return")
-			}
-			sawDefault = true
-			continue
-		}
-		if sawDefault {
-			return nil, fmt.Errorf("case after default")
-		}
-		if len(cc.List) != 1 || len(cc.Body) != 1 {
-			return nil, fmt.Errorf("unexpected case shape")
-		}
-		be, ok := cc.List[0].(*ast.BinaryExpr)
+// rxCmpBand reads `v <op> const` (or `const <op> v`) -> (variable, op, tenths).
+func rxCmpBand(sc *rxScope, e ast.Expr) (string, string, int64, error) {
+	for {
+		p, ok := e.(*ast.ParenExpr)
 		if !ok {
-			return nil, fmt.Errorf("case is not a comparison")
+			break
 		}
-		if id, ok := be.X.(*ast.Ident); !ok || id.Name != "score" {
-			return nil, fmt.Errorf("comparison is not on score")
-		}
-		lit, ok := be.Y.(*ast.BasicLit)
-		if !ok {
-			return nil, fmt.Errorf("bound is not a literal")
-		}
-		v := constant.MakeFromLiteral(lit.Value, lit.Kind, 0)
-		v10 := constant.BinaryOp(v, token.MUL, constant.MakeInt64(10))
-		iv := constant.ToInt(v10)
-		if iv.Kind() != constant.Int {
-			return nil, fmt.Errorf("bound %s is not a multiple of 0.1", lit.Value)
-		}
-		n, _ := constant.Int64Val(iv)
-		var op string
-		switch be.Op {
-		case token.EQL:
-			op = "=="
+		e = p.X
+	}
+	be, ok := e.(*ast.BinaryExpr)
+	if !ok {
+		return "", "", 0, fmt.Errorf("case is not a comparison")
+	}
+	x, y, op := be.X, be.Y, be.Op
+	if _, isID := x.(*ast.Ident); !isID {
+		// constant on the left: flip
+		x, y = y, x
+		switch op {
 		case token.LSS:
-			op = "<"
+			op = token.GTR
 		case token.LEQ:
-			op = "<="
-		default:
-			return nil, fmt.Errorf("unsupported comparison %s", be.Op)
+			op = token.GEQ
+		case token.GTR:
+			op = token.LSS
+		case token.GEQ:
+			op = token.LEQ
 		}
-		a, ok := cc.Body[0].(*ast.AssignStmt)
-		if !ok || len(a.Lhs) != 1 || len(a.Rhs) != 1 {
-			return nil, fmt.Errorf("case body is not `sev = ...`")
+	} else if _, okc := sc.Const(x); okc {
+		if _, okc2 := sc.Const(y); !okc2 {
+			x, y = y, x
+			switch op {
+			case token.LSS:
+				op = token.GTR
+			case token.LEQ:
+				op = token.GEQ
+			case token.GTR:
+				op = token.LSS
+			case token.GEQ:
+				op = token.LEQ
+			}
 		}
-		if id, ok := a.Lhs[0].(*ast.Ident); !ok || id.Name != "sev" {
-			return nil, fmt.Errorf("case body is not `sev = ...`")
-		}
-		s, err := sevSelector(a.Rhs[0], consts)
-		if err != nil {
-			return nil, err
-		}
-		out = append(out, band{op, n, s})
 	}
-	if !sawDefault {
-		return nil, fmt.Errorf("no error default")
+	id, ok := x.(*ast.Ident)
+	if !ok {
+		return "", "", 0, fmt.Errorf("comparison is not on a variable")
 	}
-	return out, nil
+	v, ok := sc.Const(y)
+	if !ok {
+		return "", "", 0, fmt.Errorf("bound is not a constant")
+	}
+	v10 := constant.BinaryOp(constant.ToFloat(v), token.MUL, constant.MakeInt64(10))
+	iv := constant.ToInt(v10)
+	if iv.Kind() != constant.Int {
+		return "", "", 0, fmt.Errorf("bound %s is not a multiple of 0.1", v.ExactString())
+	}
+	n, _ := constant.Int64Val(iv)
+	var ops string
+	switch op {
+	case token.EQL:
+		ops = "=="
+	case token.LSS:
+		ops = "<"
+	case token.LEQ:
+		ops = "<="
+	default:
+		return "", "", 0, fmt.Errorf("unsupported comparison %s", op)
+	}
+	return id.Name, ops, n, nil
 }
 
-// compositeSeverity finds `NormalizedSeverity: claircore.X` in a function.
-func compositeSeverity(fd *ast.FuncDecl, consts map[string]int) (int, error) {
-	found, val := 0, 0
-	var ferr error
-	if fd == nil {
-		return 0, fmt.Errorf("function not found")
+// rxBandValue: the severity a band body yields: `x = Sev`, `return Sev, nil`, `return Sev`.
+func rxBandValue(sc *rxScope, body []ast.Stmt) (int, error) {
+	if len(body) != 1 {
+		return 0, fmt.Errorf("band body is not a single statement")
 	}
-	ast.Inspect(fd, func(n ast.Node) bool {
-		kv, ok := n.(*ast.KeyValueExpr)
-		if !ok {
-			return true
+	var e ast.Expr
+	switch x := body[0].(type) {
+	case *ast.AssignStmt:
+		if len(x.Lhs) != 1 || len(x.Rhs) != 1 || x.Tok != token.ASSIGN {
+			return 0, fmt.Errorf("band body is not `sev = …`")
 		}
-		if id, ok := kv.Key.(*ast.Ident); ok && id.Name == "NormalizedSeverity" {
-			v, err := sevSelector(kv.Value, consts)
-			if err != nil {
-				ferr = err
+		if _, ok := x.Lhs[0].(*ast.Ident); !ok {
+			return 0, fmt.Errorf("band body is not `sev = …`")
+		}
+		e = x.Rhs[0]
+	case *ast.ReturnStmt:
+		if len(x.Results) == 0 || len(x.Results) > 2 {
+			return 0, fmt.Errorf("band body returns no severity")
+		}
+		if len(x.Results) == 2 {
+			if id, ok := x.Results[1].(*ast.Ident); !ok || id.Name != "nil" {
+				return 0, fmt.Errorf("band body returns an error")
 			}
-			found++
-			val = v
+		}
+		e = x.Results[0]
+	default:
+		return 0, fmt.Errorf("band body is neither an assignment nor a return")
+	}
+	v, ok := sc.Int(e)
+	if !ok {
+		return 0, fmt.Errorf("band value is not a severity constant")
+	}
+	return int(v), nil
+}
+
+func rxIsErrorReturn(body []ast.Stmt) bool {
+	if len(body) != 1 {
+		return false
+	}
+	r, ok := body[0].(*ast.ReturnStmt)
+	if !ok || len(r.Results) == 0 {
+		return false
+	}
+	last := r.Results[len(r.Results)-1]
+	if id, ok := last.(*ast.Ident); ok && id.Name == "nil" {
+		return false
+	}
+	return true
+}
+
+// rxBandsOf recognises one rating construct:
+//   - a tagless switch whose cases compare one variable with constants and whose default returns an error;
+//   - an if / else-if chain of such comparisons ending in an else that returns an error;
+//   - a run of `if cmp { return Sev, nil }` statements followed by a return of an error.
+func rxBandsOf(sc *rxScope, stmts []ast.Stmt, i int) ([]band, bool) {
+	var out []band
+	variable := ""
+	add := func(cond ast.Expr, body []ast.Stmt) bool {
+		v, op, n, err := rxCmpBand(sc, cond)
+		if err != nil || (variable != "" && v != variable) {
+			return false
+		}
+		variable = v
+		s, err := rxBandValue(sc, body)
+		if err != nil {
+			return false
+		}
+		out = append(out, band{op, n, s})
+		return true
+	}
+	switch st := stmts[i].(type) {
+	case *ast.SwitchStmt:
+		if st.Tag != nil || st.Init != nil {
+			return nil, false
+		}
+		sawDefault := false
+		for _, c := range st.Body.List {
+			cc := c.(*ast.CaseClause)
+			if cc.List == nil {
+				if !rxIsErrorReturn(cc.Body) {
+					return nil, false
+				}
+				sawDefault = true
+				continue
+			}
+			if sawDefault || len(cc.List) != 1 || !add(cc.List[0], cc.Body) {
+				return nil, false
+			}
+		}
+		return out, sawDefault && len(out) >= 2
+	case *ast.IfStmt:
+		cur := st
+		chain := false
+		for {
+			if cur.Init != nil || !add(cur.Cond, cur.Body.List) {
+				return nil, false
+			}
+			if cur.Else == nil {
+				break
+			}
+			chain = true
+			if next, ok := cur.Else.(*ast.IfStmt); ok {
+				cur = next
+				continue
+			}
+			blk, ok := cur.Else.(*ast.BlockStmt)
+			if !ok || !rxIsErrorReturn(blk.List) {
+				return nil, false
+			}
+			return out, len(out) >= 2
+		}
+		if chain {
+			return nil, false // a chain without an error else: an unmatched score would pass
+		}
+		// run of independent ifs that return
+		j := i + 1
+		for ; j < len(stmts); j++ {
+			is, ok := stmts[j].(*ast.IfStmt)
+			if !ok || is.Else != nil || is.Init != nil {
+				break
+			}
+			if !add(is.Cond, is.Body.List) {
+				return nil, false
+			}
+		}
+		for _, b := range out {
+			_ = b
+		}
+		// every body of the run must have been a return for the order to mean first-match
+		for k := i; k < j; k++ {
+			is := stmts[k].(*ast.IfStmt)
+			if _, ok := is.Body.List[0].(*ast.ReturnStmt); !ok {
+				return nil, false
+			}
+		}
+		if j >= len(stmts) || !rxIsErrorReturn(stmts[j:j+1]) {
+			return nil, false
+		}
+		return out, len(out) >= 2
+	}
+	return nil, false
+}
+
+// bandSwitch reads the rating bands of a fromCVSSn function: the last rating
+// construct of its body, or of the one package function it hands the score to.
+func bandSwitch(p *rxPkg, fn string) ([]band, error) {
+	fd := p.Func("", fn)
+	if fd == nil {
+		return nil, fmt.Errorf("function not found")
+	}
+	find := func(fd *ast.FuncDecl) []band {
+		sc := p.ScopeOf(fd)
+		var best []band
+		var walk func(list []ast.Stmt)
+		walk = func(list []ast.Stmt) {
+			for i := range list {
+				if bs, ok := rxBandsOf(sc, list, i); ok {
+					best = bs
+				}
+			}
+		}
+		walk(fd.Body.List)
+		return best
+	}
+	if bs := find(fd); bs != nil {
+		return bs, nil
+	}
+	// one level of helper extraction
+	var found []band
+	n := 0
+	ast.Inspect(fd.Body, func(nd ast.Node) bool {
+		if call, ok := nd.(*ast.CallExpr); ok {
+			if callee := p.rxCallee(call); callee != nil && callee != fd {
+				if bs := find(callee); bs != nil {
+					found = bs
+					n++
+				}
+			}
 		}
 		return true
 	})
-	if ferr != nil || found != 1 {
-		return 0, fmt.Errorf("expected exactly one constant NormalizedSeverity field")
+	if n == 1 {
+		return found, nil
 	}
-	return val, nil
+	return nil, fmt.Errorf("no rating construct (tagless switch / if chain over one score variable with an error default) found")
 }
 
 // ---- the markdown ----
@@ -491,41 +706,47 @@ func init() {
 		}
 		out += "/-- claircore.Severity constants in iota order (severity.go). -/\n"
 		out += "def sevNames : List String := " + LeanStrList(names) + "\n\n"
+		// the documentation first: its keys are candidate inputs of the normalisers
+		dnames, tables, err := parseSeverityDoc(repo)
+		if err != nil {
+			return "", err
+		}
+		docKeys := map[string][]string{}
+		for title, src := range map[string]string{"AWS Mapping": "Aws", "Debian Mapping": "Debian", "Oracle Mapping": "Oracle", "RHEL Mapping": "Rhel",
+			"SUSE Mapping": "Suse", "Ubuntu Mapping": "Ubuntu", "Photon Mapping": "Photon", "database_specific": "OsvDb"} {
+			for _, t := range tables {
+				if t.title == title {
+					for _, r := range t.rows {
+						docKeys[src] = append(docKeys[src], r[0])
+					}
+				}
+			}
+		}
+		evaluated, err := rxSevTables(repo, docKeys)
+		if err != nil {
+			return "", err
+		}
 		for _, s := range sevSources {
-			_, f, err := ParseFile(repo, s.file)
-			if err != nil {
-				return "", err
-			}
-			t, err := switchTable(f, FuncDecl(f, "", s.fn), consts)
-			if err != nil {
-				return "", fmt.Errorf("%s %s: %w", s.file, s.fn, err)
-			}
+			t := evaluated[s.name]
 			out += fmt.Sprintf("/-- %s %s -/\n", s.file, s.fn)
 			out += fmt.Sprintf("def code%sMode : String := %s\n", s.name, LeanString(t.mode))
 			out += fmt.Sprintf("def code%s : List (String × Nat) := %s\n", s.name, leanPairs(t.keys, t.vals))
 			out += fmt.Sprintf("def code%sDefault : Nat := %d\n\n", s.name, t.deflt)
 		}
 		// OSV database_specific severity
-		_, f, err := ParseFile(repo, "updater/osv/osv.go")
-		if err != nil {
-			return "", err
-		}
-		t, err := foldTable(FuncDecl(f, "", "severityFromDBString"), consts)
-		if err != nil {
-			return "", fmt.Errorf("updater/osv/osv.go severityFromDBString: %w", err)
-		}
+		t := evaluated["OsvDb"]
 		out += "/-- updater/osv/osv.go severityFromDBString (strings.EqualFold cases) -/\n"
 		out += fmt.Sprintf("def codeOsvDbMode : String := %s\n", LeanString(t.mode))
 		out += fmt.Sprintf("def codeOsvDb : List (String × Nat) := %s\n", leanPairs(t.keys, t.vals))
 		out += fmt.Sprintf("def codeOsvDbDefault : Nat := %d\n\n", t.deflt)
 		// OSV initial severity (Insert: proto.NormalizedSeverity = claircore.Unknown) is covered by the correspondence run.
 		// CVSS bands
-		_, f, err = ParseFile(repo, "updater/osv/cvss.go")
+		osvPkg, err := rxLoadPkg(repo, "updater/osv")
 		if err != nil {
 			return "", err
 		}
 		for _, b := range []struct{ lean, fn string }{{"codeOsvV3Bands", "fromCVSS3"}, {"codeOsvV2Bands", "fromCVSS2"}} {
-			bs, err := bandSwitch(FuncDecl(f, "", b.fn), consts)
+			bs, err := bandSwitch(osvPkg, b.fn)
 			if err != nil {
 				return "", fmt.Errorf("updater/osv/cvss.go %s: %w", b.fn, err)
 			}
@@ -539,23 +760,21 @@ func init() {
 			}
 			out += "]\n\n"
 		}
-		// alpine constant
-		_, f, err = ParseFile(repo, "alpine/parser.go")
-		if err != nil {
+		// alpine constant: evaluated (the parser is run on a small security database)
+		var alp struct {
+			Alpine []int `json:"alpine"`
+		}
+		if err := rxProbe(repo, "severity", map[string]any{"alpine": true}, &alp); err != nil {
 			return "", err
 		}
-		av, err := compositeSeverity(FuncDecl(f, "updater", "parse"), consts)
-		if err != nil {
-			return "", fmt.Errorf("alpine/parser.go parse: %w", err)
+		if len(alp.Alpine) != 1 {
+			return "", fmt.Errorf("alpine/parser.go parse: the vulnerabilities of one security database carry %d different severities %v, expected one constant", len(alp.Alpine), alp.Alpine)
 		}
+		_ = consts
 		out += "/-- alpine/parser.go parse: the constant NormalizedSeverity of every vulnerability -/\n"
-		out += fmt.Sprintf("def codeAlpineConst : Nat := %d\n\n", av)
+		out += fmt.Sprintf("def codeAlpineConst : Nat := %d\n\n", alp.Alpine[0])
 
 		// the documentation
-		dnames, tables, err := parseSeverityDoc(repo)
-		if err != nil {
-			return "", err
-		}
 		out += "/-- docs/concepts/severity_mapping.md: the list under \"Claircore Severity Strings\" -/\n"
 		out += "def docSevNames : List String := " + LeanStrList(dnames) + "\n\n"
 		idx := func(s string) (int, error) {
